@@ -642,6 +642,9 @@ func (vc *VC) isStrSV(x SV) bool {
 }
 
 func (vc *VC) nilOf(x SV) T {
+	if x.t == "interior" && x.loc != nil {
+		return tFalse // the address of a field or element is never nil
+	}
 	s := x.sortIn(vc)
 	switch s {
 	case "absfield":
